@@ -60,6 +60,7 @@ fn main() {
         "C08" => checks::fieldvalue::c08(&ctx),
         "C16" => checks::serial::c16(&ctx),
         "C18" => checks::decode::c18(&ctx),
+        "C04" => checks::hints::c04(&ctx),
         "C22" => checks::meta::c22(&ctx),
         "C23" => checks::meta::c23(&ctx),
         #[cfg(feature = "hooks")]
